@@ -27,6 +27,8 @@ mod token;
 
 pub use client::{ClientAuthentication, DisconnectReason, NetcodeClient};
 pub use crypto::generate_random_bytes;
+#[cfg(feature = "verif")]
+pub use crypto::verif_rng;
 pub use error::NetcodeError;
 pub use server::{NetcodeServer, ServerAuthentication, ServerConfig, ServerResult};
 pub use token::{ConnectToken, TokenGenerationError};
@@ -57,3 +59,61 @@ const NETCODE_CONNECT_TOKEN_XNONCE_BYTES: usize = 24;
 
 const NETCODE_ADDITIONAL_DATA_SIZE: usize = 13 + 8 + 8;
 const NETCODE_SEND_RATE: Duration = Duration::from_millis(250);
+
+/// Verification hooks (feature `verif`): the crate's own codecs, re-exported so that an external observer or
+/// a simulated adversary can read and build packets and tokens without duplicating the formats.
+#[cfg(feature = "verif")]
+pub mod verif {
+    pub use crate::packet::{ChallengeToken, Packet};
+    pub use crate::replay_protection::ReplayProtection;
+    use crate::token::PrivateConnectToken;
+    use std::net::SocketAddr;
+
+    /// Plain-data mirror of the private connect token.
+    #[derive(Debug, Clone, PartialEq, Eq)]
+    pub struct PrivateToken {
+        pub client_id: u64,
+        pub timeout_seconds: i32,
+        pub server_addresses: [Option<SocketAddr>; 32],
+        pub client_to_server_key: [u8; 32],
+        pub server_to_client_key: [u8; 32],
+        pub user_data: [u8; 256],
+    }
+
+    pub fn private_token_decode(
+        buffer: &[u8; 1024],
+        protocol_id: u64,
+        expire_timestamp: u64,
+        xnonce: &[u8; 24],
+        private_key: &[u8; 32],
+    ) -> Option<PrivateToken> {
+        let t = PrivateConnectToken::decode(buffer, protocol_id, expire_timestamp, xnonce, private_key).ok()?;
+        Some(PrivateToken {
+            client_id: t.client_id,
+            timeout_seconds: t.timeout_seconds,
+            server_addresses: t.server_addresses,
+            client_to_server_key: t.client_to_server_key,
+            server_to_client_key: t.server_to_client_key,
+            user_data: t.user_data,
+        })
+    }
+
+    pub fn private_token_encode(
+        token: &PrivateToken,
+        buffer: &mut [u8; 1024],
+        protocol_id: u64,
+        expire_timestamp: u64,
+        xnonce: &[u8; 24],
+        private_key: &[u8; 32],
+    ) -> bool {
+        let t = PrivateConnectToken {
+            client_id: token.client_id,
+            timeout_seconds: token.timeout_seconds,
+            server_addresses: token.server_addresses,
+            client_to_server_key: token.client_to_server_key,
+            server_to_client_key: token.server_to_client_key,
+            user_data: token.user_data,
+        };
+        t.encode(buffer, protocol_id, expire_timestamp, xnonce, private_key).is_ok()
+    }
+}
